@@ -542,23 +542,38 @@ def warm(o):
         pass
 
 
+class _Arr:
+    """arr[...] = value, skipping arrays numpy marks read-only (some decoded header fields)"""
+
+    def __init__(self, a):
+        self.a = a
+
+    def __setitem__(self, key, value):
+        try:
+            self.a[key] = value
+        except ValueError as e:
+            if "read-only" not in str(e):
+                raise
+
+
 def apply_inplace(kind, fmt, o, w):
-    """edit object o (built from a value of the same shape) IN PLACE so that it holds w: arrays through slice
-    assignment, strings and scalars through attribute assignment"""
+    """edit object o (built from a value of the same shape) IN PLACE towards w: arrays through slice assignment
+    (read-only decoded arrays are left alone), strings and scalars through attribute assignment.  The content
+    actually reached is extract(kind, fmt, o)."""
     if kind in ("D3", "FT"):
         o.frequency = w[1]
         o.startTime = f32s(w[2])
-        o.volume[...] = f32a(w[4])
+        _Arr(o.volume)[...] = f32a(w[4])
         key, ncomp = (9, 3) if kind == "D3" else (8, 9)
         for t, (label, frames) in zip(o._tracks, w[key]):
             t.label = txt(label)
             a = frames_array(frames, ncomp)
             if kind == "D3":
-                t.data[...] = a
+                _Arr(t.data)[...] = a
             else:
-                t.application_point[...] = a[:, 0:3]
-                t.force[...] = a[:, 3:6]
-                t.torque[...] = a[:, 6:9]
+                _Arr(t.application_point)[...] = a[:, 0:3]
+                _Arr(t.force)[...] = a[:, 3:6]
+                _Arr(t.torque)[...] = a[:, 6:9]
     elif kind == "EM":
         o.frequency = w[1]
         for s, (label, frames) in zip(o._signals, w[5]):
@@ -568,35 +583,35 @@ def apply_inplace(kind, fmt, o, w):
             for i, fr in enumerate(frames):
                 if fr != []:
                     u[i] = fr
-            s.data[...] = a
+            _Arr(s.data)[...] = a
     elif kind == "PD":
         for p, frames in zip(o._platforms, w[5]):
             a = frames_array(frames, 6)
-            p.application_point[...] = a[:, 0:2]
-            p.force[...] = a[:, 2:5]
-            p.torque[...] = a[:, 5]
+            _Arr(p.application_point)[...] = a[:, 0:2]
+            _Arr(p.force)[...] = a[:, 2:5]
+            _Arr(p.torque)[...] = a[:, 5]
     elif kind == "PC":
         for p, (label, size, pos, _pad) in zip(o._platforms, w[3]):
             p.label = txt(label)
-            p.size[...] = f32a(size)
-            p.position[...] = f32a(pos, (4, 3))
+            _Arr(p.size)[...] = f32a(size)
+            _Arr(p.position)[...] = f32a(pos, (4, 3))
     elif kind == "EV":
         for e, (label, k, n, vals) in zip(o.events, w[2]):
             e.label = txt(label)
             if n:
-                e.values[...] = f32a(vals)
+                _Arr(e.values)[...] = f32a(vals)
     elif kind == "OS":
         for c, cv in zip(o.channels, w[2]):
             c.lens_name, c.camera_name = txt(cv[2]), txt(cv[4])
-            c.camera_viewport.origin[...] = cv[5][0]
-            c.camera_viewport.size[...] = cv[5][1]
+            _Arr(c.camera_viewport.origin)[...] = cv[5][0]
+            _Arr(c.camera_viewport.size)[...] = cv[5][1]
     elif kind == "CA":
         for c, cv in zip(o.cam_data, w[6]):
-            c.focus[...] = f64a(cv[2])
+            _Arr(c.focus)[...] = f64a(cv[2])
             if fmt == 1:
-                c.thin_prism[...] = f64a(cv[-2])
+                _Arr(c.thin_prism)[...] = f64a(cv[-2])
             else:
-                c.y_distortion_coefficients[...] = f64a(cv[-2])
+                _Arr(c.y_distortion_coefficients)[...] = f64a(cv[-2])
     elif kind == "D2":
         d = o._data.data
         for i, row in enumerate(w[6]):
